@@ -104,6 +104,17 @@ Theorem C19_model_meets_reference_semantics : forall keep tc,
 Proof. exact model_meets_reference_semantics. Qed.
 Print Assumptions C19_model_meets_reference_semantics.
 
+(** Whatever the test-case status ([conf] status = PASS | FAIL; with SKIP nothing runs), the status
+    REPORTED for a step that ends in HARD_ERROR — in particular an expiry — is HARD_ERROR
+    ([Outcome.translate_status], the table proved for C02): `status = FAIL` turns only an assertion FAIL
+    into XFAIL; and the check's decoding of the printed identifier recovers exactly that. *)
+Theorem C19_expiry_reported_hard_error_in_every_mode :
+  translate_status TPass (Some FHard) = HARD_ERROR /\ translate_status TFail (Some FHard) = HARD_ERROR /\
+  forall mode act_only, mode <> TSkip ->
+    decode_ident mode act_only (Some (translate_status mode (Some FHard))) = Some (Some FHard).
+Proof. exact expiry_reported_hard_error_in_every_mode. Qed.
+Print Assumptions C19_expiry_reported_hard_error_in_every_mode.
+
 (** Non-vacuity.  [setup]: timeout = 2; a 3-second child in before-assert (preceded by a process
     that stays within the limit); the limit is lifted in cleanup and a 100-second child is then
     waited for.  The expiry is a HARD_ERROR of before-assert[1]; assert never runs; cleanup does. *)
